@@ -4,7 +4,9 @@ Step B: implementation (Tag / TagAttrDict / consolidate_attrs from /repo) vs the
 Coq model (Model/Attrs.v) on the same argument lists and operation sequences, compared after
 every step.  Step C: the implementation vs the extracted Coq specification
 (Spec/AttrsSpec.v: attrs_of_call, replace_merge) on every case, and vs an independent Python
-transcription of the property text on the cases without unsupported values."""
+transcription of the property text on the cases without unsupported values.  Every call is
+also observed from the caller's side: typed deep snapshots of all argument objects (attribute
+dicts, keyword values, non-dict arguments of every container shape) before and after."""
 from __future__ import annotations
 
 import itertools
@@ -211,10 +213,24 @@ def child_obj(cid):
     return "c%d" % cid
 
 
-def impl_scenario(case):
+def impl_scenario(case, notes=None):
+    """runs the scenario; `notes` (a list) receives (message, detail) for what the calls did to
+    the caller's own argument objects"""
     args = [build_dict(a[1]) if a[0] == "d" else child_obj(a[1]) for a in case["args"]]
     kw = build_dict(case["kw"])
+    mine = [o for o in args if isinstance(o, dict)] + [kw]      # the caller's dicts, all calls so far
+    passed = [snap(o) for o in mine]
+
+    def intact(after_what):
+        if notes is None or notes:
+            return
+        d = first_diff(passed, [snap(o) for o in mine])
+        if d is not None:
+            notes.append((after_what + " altered an attribute dict passed by the caller (the same "
+                          "arguments must give the same attributes again)", d))
+
     r = safe_call(lambda: Tag("div", *args, **kw))
+    intact("construction")
     if r[0] == "ok":
         t = r[1]
         kids = [int(c[1:]) if isinstance(c, str) and c[:1] == "c" else -1 for c in t.children]
@@ -227,6 +243,8 @@ def impl_scenario(case):
         if o[0] == "u":
             ds = [build_dict(d) for d in o[1]]
             okw = build_dict(o[2])
+            mine += ds + [okw]
+            passed += [snap(d) for d in ds + [okw]]
             rr = safe_call(lambda: t.attrs.update(*ds, **okw))
         else:
             val = build_value(o[2])
@@ -235,6 +253,17 @@ def impl_scenario(case):
                 t.attrs[o[1]] = val
             rr = safe_call(setit)
         trace.append([items_of(t.attrs), 0 if rr[0] == "ok" else rr[1]])
+        intact("update/assignment")
+    if notes is not None and not notes:
+        # the tag's attributes are those of the calls made: what the caller does to its own
+        # dicts afterwards is not an update or item assignment
+        now = items_of(t.attrs)
+        for d in mine:
+            d["zz_later"] = "1"
+            d.pop(next(iter(d)))
+        if items_of(t.attrs) != now:
+            notes.append(("changing an argument dict after the call changes the tag's attributes "
+                          "(only update / item assignment may)", {"before": now, "after": items_of(t.attrs)}))
     return [cons, trace]
 
 
@@ -334,90 +363,320 @@ def py_spec_scenario(case):
     return [cons, trace]
 
 
+# ---- argument snapshots -----------------------------------------------------------------------
+def snap(x, depth=0):
+    """typed, deep, JSON-able picture of an argument object (1, '1', 1.0 and True all differ;
+    list / tuple / TagList differ), to decide whether a call altered its arguments"""
+    if x is None:
+        return ["None"]
+    t = type(x).__name__
+    if depth > 12:
+        return [t, "..."]
+    if isinstance(x, HTML):
+        return [t, str(x)]
+    if isinstance(x, (bool, int, float, str, bytes)):
+        return [t, repr(x)]
+    if isinstance(x, Tag):
+        return [t, x.name, [[k, snap(v, depth + 1)] for k, v in x.attrs.items()],
+                [snap(c, depth + 1) for c in x.children]]
+    if isinstance(x, dict):
+        return [t, [[snap(k, depth + 1), snap(v, depth + 1)] for k, v in x.items()]]
+    if isinstance(x, (list, tuple, TagList)):
+        return [t, [snap(c, depth + 1) for c in x]]
+    if isinstance(x, (set, frozenset)):
+        return [t, sorted(repr(e) for e in x)]
+    return [t]
+
+
+def first_diff(before, after):
+    for i, (p, q) in enumerate(zip(before, after)):
+        if p != q:
+            return {"argument_no": i, "passed": p, "afterwards": q}
+    return None
+
+
 # ---- consolidate_attrs -----------------------------------------------------------------------
-def cons_child(cid, rng_tag):
-    kind = rng_tag % 9
-    if kind == 0:
-        return "c%d" % cid
-    if kind == 1:
-        return HTML("<i>%d</i>" % cid)
-    if kind == 2:
-        return Tag("span", str(cid), class_="k")
-    if kind == 3:
-        return None
-    if kind == 4:
-        return cid
-    if kind == 5:
-        return 0.5 + cid
-    if kind == 6:
-        return ["a%d" % cid, [Tag("b"), None], ("t",)]
-    if kind == 7:
-        return TagList("l%d" % cid, Tag("u"))
-    return TagAttrDictLike({"data_c": str(cid)})   # a dict SUBCLASS instance: counts as attrs
-
-
+#   child ::= ["s", str] | ["h", str] | ["i", int] | ["f", "<float literal>"] | ["n"]
+#           | ["t", name, dict, [child...]]                              (a Tag)
+#           | ["l", [child...]] | ["p", [child...]] | ["L", [child...]]    (list / tuple / TagList)
+#           | ["D", dict]          (an instance of a dict SUBCLASS: counts as attributes)
+#   case  ::= {"args": [arg...], "kw": dict, "children": [child...]}   (arg ["c", i] is children[i])
+#   (older replay files have "ckinds": [int...] instead of "children"; see legacy_shape)
 class TagAttrDictLike(dict):
     pass
 
 
-def impl_consolidate(case):
-    """returns (canonical for correspondence, oracle message or None, detail)"""
-    objs = []
+def legacy_shape(cid, kind):
+    kind = kind % 9
+    return [["s", "c%d" % cid],
+            ["h", "<i>%d</i>" % cid],
+            ["t", "span", [["class_", ["S", "k"]]], [["s", str(cid)]]],
+            ["n"],
+            ["i", cid],
+            ["f", str(0.5 + cid)],
+            ["l", [["s", "a%d" % cid], ["l", [["t", "b", [], []], ["n"]]], ["p", [["s", "t"]]]]],
+            ["L", [["s", "l%d" % cid], ["t", "u", [], []]]],
+            ["D", [["data_c", ["S", str(cid)]]]]][kind]
+
+
+def child_shapes(case):
+    if "children" in case:
+        return case["children"]
+    return [legacy_shape(i, k) for i, k in enumerate(case["ckinds"])]
+
+
+def build_child(sh):
+    k = sh[0]
+    if k == "s":
+        return sh[1]
+    if k == "h":
+        return HTML(sh[1])
+    if k == "i":
+        return int(sh[1])
+    if k == "f":
+        return float(sh[1])
+    if k == "n":
+        return None
+    if k == "t":
+        return Tag(sh[1], build_dict(sh[2]), *[build_child(c) for c in sh[3]])
+    if k == "l":
+        return [build_child(c) for c in sh[1]]
+    if k == "p":
+        return tuple(build_child(c) for c in sh[1])
+    if k == "L":
+        return TagList(*[build_child(c) for c in sh[1]])
+    if k == "D":
+        return TagAttrDictLike(build_dict(sh[1]))
+    raise ValueError(sh)
+
+
+def cons_dicts(case):
+    """the attribute dicts of the call in argument order (dict-subclass instances included)"""
+    shapes = child_shapes(case)
+    out = []
     for a in case["args"]:
         if a[0] == "d":
-            objs.append(build_dict(a[1]))
-        else:
-            objs.append(cons_child(a[1], case["ckinds"][a[1]]))
+            out.append(a[1])
+        elif shapes[a[1]][0] == "D":
+            out.append(shapes[a[1]][1])
+    return out
+
+
+def cons_plain(case):
+    return all(v[0] != "X" for d in cons_dicts(case) + [case["kw"]] for _, v in d)
+
+
+def impl_consolidate(case):
+    """returns (canonical for correspondence, [oracle message...], detail)"""
+    shapes = child_shapes(case)
+
+    def build_args():
+        return [build_dict(a[1]) if a[0] == "d" else build_child(shapes[a[1]]) for a in case["args"]]
+
+    objs = build_args()
     kw = build_dict(case["kw"])
     non_dicts = [o for o in objs if not isinstance(o, dict)]
+    passed = [snap(o) for o in objs] + [snap(kw)]
+    msgs = []
+
+    def args_intact(after_what):
+        d = first_diff(passed, [snap(o) for o in objs] + [snap(kw)])
+        if d is not None:
+            which = "attribute dict" if (d["argument_no"] >= len(objs)
+                                         or isinstance(objs[d["argument_no"]], dict)) else "non-dict"
+            msgs.append(("%s altered a %s argument of the caller (the non-dict arguments come back "
+                         "unchanged; the same arguments must build the same tag again)" % (after_what, which), d))
+            return False
+        return True
+
     r = safe_call(lambda: consolidate_attrs(*objs, **kw))
+    intact = args_intact("consolidate_attrs")
     direct = safe_call(lambda: Tag("div", *objs, **kw))
-    msg = None
+    intact = intact and args_intact("Tag(...)")
+    detail = {"impl_output": repr(r), "expected": repr(direct)}
+    # the statement, transcribed: exactly the attributes of the call, plus the non-dict arguments
+    want = py_spec_call(cons_dicts(case), case["kw"]) if cons_plain(case) else None
     if r[0] != "ok":
         canon = ["err", r[1]]
         if direct[0] == "ok" or direct[1] != r[1]:
-            msg = "consolidate_attrs raises but direct construction does not (or differently)"
-        return canon, msg, {"impl_output": repr(r), "expected": repr(direct)}
+            msgs.append(("consolidate_attrs raises but direct construction does not (or differently)", None))
+        if want is not None:
+            msgs.append(("consolidate_attrs raises on supported values [property-text oracle]", None))
+        return canon, [m for m, _ in msgs], _detail(detail, msgs, want)
     out = r[1]
     if not (isinstance(out, tuple) and len(out) == 2 and type(out[0]) is dict and type(out[1]) is list):
-        return ["shape"], "consolidate_attrs does not return (dict, list)", {"impl_output": repr(out)}
+        return ["shape"], ["consolidate_attrs does not return (dict, list)"], {"impl_output": repr(out)}
     attrs, children = out
+    got_items = items_of(attrs)
     # k-th returned child must BE the k-th non-dict argument; the model names it by its id
-    nd_ids = [a[1] for a in case["args"] if a[0] == "c" and case["ckinds"][a[1]] != 8]
+    nd_ids = [a[1] for a in case["args"] if a[0] == "c" and shapes[a[1]][0] != "D"]
     kids = [nd_ids[k] if k < len(non_dicts) and k < len(nd_ids) and c is non_dicts[k] else -1
             for k, c in enumerate(children)]
-    canon = ["ok", items_of(attrs), kids]
+    canon = ["ok", got_items, kids]
+    if want is not None and got_items != want:
+        msgs.append(("consolidate_attrs does not return exactly the attributes of the call "
+                     "(normalised, merged in argument order) [property-text oracle]", None))
     if direct[0] != "ok":
-        return canon, "consolidate_attrs succeeds but direct construction raises", \
-            {"impl_output": repr(out), "expected": repr(direct)}
+        msgs.append(("consolidate_attrs succeeds but direct construction raises", None))
+        return canon, [m for m, _ in msgs], _detail(detail, msgs, want)
     d = direct[1]
-    if items_of(attrs) != items_of(d.attrs):
-        msg = "consolidate_attrs attributes differ from those of the directly built tag"
+    if got_items != items_of(d.attrs):
+        msgs.append(("consolidate_attrs attributes differ from those of the directly built tag", None))
     elif len(children) != len(non_dicts) or any(a is not b for a, b in zip(children, non_dicts)):
-        msg = "consolidate_attrs does not return the non-dict arguments unchanged"
+        msgs.append(("consolidate_attrs does not return the non-dict arguments unchanged", None))
     else:
+        # a tag built directly from separately built, never used, equal arguments
+        fresh = safe_call(lambda: Tag("div", *build_args(), **build_dict(case["kw"])))
         rebuilt = safe_call(lambda: Tag("div", attrs, *children))
         if rebuilt[0] != "ok":
-            msg = "rebuilding a tag from consolidate_attrs' result raises"
+            msgs.append(("rebuilding a tag from consolidate_attrs' result raises", None))
         else:
             rb = rebuilt[1]
             if items_of(rb.attrs) != items_of(d.attrs):
-                msg = "tag rebuilt from consolidate_attrs' result has different attributes"
+                msgs.append(("tag rebuilt from consolidate_attrs' result has different attributes", None))
             elif not (rb == d) or str(rb) != str(d) or len(rb.children) != len(d.children):
-                msg = "tag rebuilt from consolidate_attrs' result differs from the directly built tag"
-    return canon, msg, {"impl_output": repr(out), "expected": repr(direct)}
+                msgs.append(("tag rebuilt from consolidate_attrs' result differs from the directly built tag", None))
+            elif fresh[0] != "ok" or not (rb == fresh[1]) or snap(rb) != snap(fresh[1]):
+                msgs.append(("tag rebuilt from consolidate_attrs' result differs from a tag built directly "
+                             "from equal, unused arguments", {"rebuilt": snap(rb), "direct": repr(fresh)}))
+        if intact:
+            args_intact("rebuilding from the result")
+        # what was returned belongs to the caller: changing it must not show in a second call
+        attrs["zz-changed"] = "1"
+        del children[:]
+        r2 = safe_call(lambda: consolidate_attrs(*objs, **kw))
+        if intact:
+            args_intact("changing the returned dict / list")
+        if r2[0] != "ok" or items_of(r2[1][0]) != got_items or len(r2[1][1]) != len(non_dicts) \
+                or any(a is not b for a, b in zip(r2[1][1], non_dicts)):
+            msgs.append(("a second consolidate_attrs call with the same arguments (after the caller changed "
+                         "the first result) returns something else", {"second": repr(r2)}))
+    return canon, [m for m, _ in msgs], _detail(detail, msgs, want)
 
 
-def rand_cons_case(rng, bad_p=0.04):
-    args, kinds = [], []
-    for _ in range(rng.choice([0, 1, 2, 2, 3, 4, 5])):
-        if rng.random() < 0.55:
-            args.append(["d", rand_dict(rng, bad_p=bad_p)])
-        else:
-            args.append(["c", len(kinds)])
-            kinds.append(rng.randrange(0, 8))      # kind 8 (dict subclass) is added separately
+def _detail(detail, msgs, want):
+    extra = [x for _, x in msgs if x is not None]
+    if extra:
+        detail = dict(detail, observed=extra[0])
+    if want is not None:
+        detail = dict(detail, expected_attrs=want)
+    return detail
+
+
+SCALAR_SHAPES = [["s", "a"], ["s", ""], ["s", "<&>"], ["h", "<b>x</b>"], ["i", 0], ["i", 1], ["i", -3],
+                 ["i", 10 ** 21], ["f", "2.5"], ["f", "0.0"], ["f", "1e+22"], ["f", "3.0"]]
+
+
+def rand_scalar(rng, none_p=0.0):
+    if rng.random() < none_p:
+        return ["n"]
+    r = rng.random()
+    if r < 0.45:                       # numbers: what a normalising callee would rewrite
+        return ["i", rng.choice(INTS)] if rng.random() < 0.5 else ["f", rng.choice(FLOATS)]
+    if r < 0.8:
+        return ["s", rng.choice(["a", "b", "", "<", "1", "2.5"]) if rng.random() < 0.7 else trees.rand_text(rng, 4)]
+    if r < 0.9:
+        return ["h", rng.choice(["<i>h</i>", "", "&amp;"])]
+    return ["t", rng.choice(["b", "span", "br"]), [], []]
+
+
+def rand_child(rng, depth=0):
+    """a non-dict argument: scalars, tags, and list / tuple / TagList containers that are empty,
+    singletons, flat (numbers, strings, mixed), contain None, or nest"""
+    r = rng.random()
+    if depth >= 2 or r < 0.40:
+        return rand_scalar(rng, none_p=0.15)
+    if r < 0.52:
+        kids = [rand_child(rng, depth + 1) for _ in range(rng.choice([0, 0, 1, 2, 3]))]
+        return ["t", rng.choice(["span", "p", "b"]), rand_dict(rng, 2, 0.0) if rng.random() < 0.5 else [], kids]
+    kind = rng.choice(["l", "l", "l", "l", "p", "p", "L"])
+    n = rng.choice([0, 1, 1, 2, 2, 3, 4, 6])
+    style = rng.random()
+    if style < 0.55:                   # flat, nothing to drop
+        return [kind, [rand_scalar(rng) for _ in range(n)]]
+    if style < 0.75:                   # flat with None
+        return [kind, [rand_scalar(rng, none_p=0.3) for _ in range(n)]]
+    return [kind, [rand_child(rng, depth + 1) for _ in range(n)]]
+
+
+def rand_cons_case(rng, bad_p=0.04, dictsub_p=0.0):
+    args, children = [], []
+
+    def child():
+        sh = ["D", rand_dict(rng, 3, bad_p)] if rng.random() < dictsub_p else rand_child(rng)
+        args.append(["c", len(children)])
+        children.append(sh)
+
+    if rng.random() < 0.3:             # exactly one non-dict argument among any number of dicts
+        nd = rng.choice([0, 0, 1, 1, 2, 3])
+        pos = rng.randrange(0, nd + 1)
+        for i in range(nd + 1):
+            if i == pos:
+                child()
+            else:
+                args.append(["d", rand_dict(rng, bad_p=bad_p)])
+    else:
+        for _ in range(rng.choice([0, 1, 2, 2, 3, 4, 5])):
+            if rng.random() < 0.55:
+                args.append(["d", rand_dict(rng, bad_p=bad_p)])
+            else:
+                child()
     kw = rand_dict(rng, bad_p=bad_p) if rng.random() < 0.7 else []
-    return {"args": args, "kw": kw, "ckinds": kinds}
+    return {"args": args, "kw": kw, "children": children}
+
+
+SMALL_CHILDREN = [["s", "a"], ["i", 1], ["f", "2.5"], ["n"], ["h", "<b>"], ["t", "b", [], []],
+                  ["t", "p", [["x_", ["I", 1]]], [["i", 2]]],
+                  ["l", []], ["l", [["i", 1]]], ["l", [["i", 1], ["f", "2.5"]]], ["l", [["s", "a"], ["s", "b"]]],
+                  ["l", [["i", 1], ["n"]]], ["l", [["l", [["i", 1]]]]], ["l", [["t", "b", [], []], ["i", 3]]],
+                  ["l", [["h", "<b>"], ["f", "0.0"]]],
+                  ["p", []], ["p", [["i", 1], ["i", 2]]], ["p", [["f", "2.5"]]],
+                  ["L", []], ["L", [["i", 1]]], ["L", [["s", "a"], ["f", "2.5"]]],
+                  ["D", [["x_", ["I", 1]]]], ["D", []]]
+
+
+def small_cons_cases():
+    """every one of SMALL_CHILDREN alone and every ordered pair of them, with attribute dicts
+    before / after / around / absent, with and without keywords"""
+    d1, d2 = ["d", [["x", ["S", "p"]], ["a_b", ["I", 0]]]], ["d", [["x_", ["F", "2.5"]]]]
+    out = []
+    for kw in ([], [["x__", ["S", "k"]], ["id", ["S", "i"]]]):
+        for c in SMALL_CHILDREN:
+            for args in ([["c", 0]], [d1, ["c", 0]], [["c", 0], d2], [d1, ["c", 0], d2], [d1, d2, ["c", 0]]):
+                out.append({"args": args, "kw": kw, "children": [c]})
+        for c, e in itertools.product(SMALL_CHILDREN, repeat=2):
+            for args in ([["c", 0], ["c", 1]], [d1, ["c", 0], d2, ["c", 1]]):
+                out.append({"args": args, "kw": kw, "children": [c, e]})
+    return out
+
+
+def check_consolidate(ctx: Ctx, name: str, cases: list, kind: str) -> None:
+    """oracle on every case; correspondence with the model on those inside its domain
+    (no dict-subclass arguments)"""
+    inside = [c for c in cases if all(sh[0] != "D" for sh in child_shapes(c))]
+    mo = run_model([[3, args_sx(c["args"]), dict_sx(c["kw"])] for c in inside], driver="c15") if inside else []
+    model_of = {id(c): m for c, m in zip(inside, mo)}
+    dis = []
+    for c in cases:
+        ctx.count(("consolidate", c), True, kind if id(c) in model_of else kind + " (dict subclass args)")
+        canon, msgs, detail = impl_consolidate(c)
+        for msg in msgs:
+            ctx.violation("consolidate_attrs: " + msg, c, detail)
+        m = model_of.get(id(c))
+        if m is None:
+            continue
+        mv = dec_tagres(m[0])
+        # the model's rebuilt tag and direct tag must agree with its consolidate (theorem;
+        # checked here on the extracted code as a sanity check of the extraction)
+        if mv != canon or dec_tagres(m[1]) != mv or dec_tagres(m[2]) != mv:
+            dis.append({"case": c, "impl_output": canon,
+                        "model_output": [mv, dec_tagres(m[1]), dec_tagres(m[2])]})
+    if inside:
+        ctx.corr_cases += len(inside)
+        ctx.obligation(f"correspondence {name} ({len(inside)} cases)", not dis)
+    if dis:
+        dis.sort(key=lambda d: len(json.dumps(d["case"])))
+        ctx.extra.setdefault("disagree_consolidate", []).extend(dis[:3])
 
 
 # ------------------------------------------------------------------------------------------------
@@ -427,7 +686,10 @@ def check_scenarios(ctx: Ctx, name: str, cases: list) -> None:
     disagreements = []
     for c, m in zip(cases, model_out):
         ctx.count(c, nontrivial(c), case_kind(c))
-        iv = impl_scenario(c)
+        notes = []
+        iv = impl_scenario(c, notes)
+        for what, d in notes:
+            ctx.violation(what, c, {"impl_output": iv, "observed": d})
         if isinstance(m, tuple) or m == [999999, 999999]:
             disagreements.append({"case": c, "impl_output": iv, "model_output": repr(m)})
             continue
@@ -482,8 +744,16 @@ def run(ctx: Ctx) -> None:
                 "list with str/HTML marks and the exception kind are compared after every step. Plus name "
                 "normalisation on all strings up to length 5 over {_,-,a,x}; bounded-exhaustive constructions "
                 "(two (name, value) pairs over 6 names x 10 values in three placements, thorough: followed by "
-                "every one of 8 follow-up operations); consolidate_attrs on random argument lists with "
-                "children of every kind. A scenario is non-trivial when two values share a normalised name "
+                "every one of 8 follow-up operations); consolidate_attrs on random argument lists whose "
+                "non-dict arguments are scalars (str, HTML, int, float, None), tags, and list / tuple / TagList "
+                "containers that are empty, singletons, flat (numbers, strings, mixed), contain None, or nest, "
+                "with exactly one non-dict argument among the dicts in 30% of the cases, dict-subclass arguments, "
+                "and every one / every ordered pair of 23 small non-dict shapes in 5 + 2 placements; its result "
+                "is judged against the property-text transcription, against direct construction from the same "
+                "and from separately built equal arguments, and by a second call after the caller changed the "
+                "first result. Every call (Tag, update, consolidate_attrs) is also observed through the "
+                "caller's own argument objects: a typed deep snapshot taken before must equal one taken after, "
+                "and changing an argument dict after the call must not change the tag. A scenario is non-trivial when two values share a normalised name "
                 "or an operation follows; distinct = distinct canonical case descriptions.")
     ctx.assumptions = [
         "the extracted OCaml model behaves as the Gallina model (ExtrOcamlBasic only)",
@@ -569,35 +839,17 @@ def run(ctx: Ctx) -> None:
     check_scenarios(ctx, "bounded-exhaustive two-pair constructions", small)
 
     # ---- 4. consolidate_attrs -------------------------------------------------------------------
-    ccases = [rand_cons_case(rng) for _ in range(ctx.budget(3000, 50000))]
-    mo = run_model([[3, args_sx(c["args"]), dict_sx(c["kw"])] for c in ccases], driver="c15")
-    dis = []
-    for c, m in zip(ccases, mo):
-        ctx.count(("consolidate", c), True, "consolidate_attrs")
-        canon, msg, detail = impl_consolidate(c)
-        if msg is not None:
-            ctx.violation("consolidate_attrs: " + msg, c, detail)
-        mv = dec_tagres(m[0])
-        # the model's rebuilt tag and direct tag must agree with its consolidate (theorem;
-        # checked here on the extracted code as a sanity check of the extraction)
-        if mv != canon or dec_tagres(m[1]) != mv or dec_tagres(m[2]) != mv:
-            dis.append({"case": c, "impl_output": canon,
-                        "model_output": [mv, dec_tagres(m[1]), dec_tagres(m[2])]})
-    ctx.corr_cases += len(ccases)
-    ctx.obligation(f"correspondence consolidate_attrs ({len(ccases)} cases)", not dis)
-    if dis:
-        dis.sort(key=lambda d: len(json.dumps(d["case"])))
-        ctx.extra["disagree_consolidate"] = dis[:3]
-    # oracle only: invalid children and dict-subclass arguments (outside the model's domain)
-    for _ in range(ctx.budget(400, 6000)):
-        c = rand_cons_case(rng)
-        for i in range(len(c["ckinds"])):
-            if rng.random() < 0.3:
-                c["ckinds"][i] = 8
-        ctx.count(("consolidate*", c), True, "consolidate_attrs (dict subclass args)")
-        _, msg, detail = impl_consolidate(c)
-        if msg is not None:
-            ctx.violation("consolidate_attrs: " + msg, c, detail)
+    small_c = small_cons_cases()
+    if ctx.quick:        # all one-child cases, a third of the two-children ones
+        small_c = [c for i, c in enumerate(small_c) if len(c["children"]) == 1 or i % 3 == ctx.seed % 3]
+    check_consolidate(ctx, "consolidate_attrs, small scope (one / two non-dict arguments of every shape)",
+                      small_c, "consolidate_attrs (small scope)")
+    check_consolidate(ctx, "consolidate_attrs", [rand_cons_case(rng) for _ in range(ctx.budget(3000, 50000))],
+                      "consolidate_attrs")
+    # dict-subclass arguments are outside the model's domain: oracle only
+    check_consolidate(ctx, "consolidate_attrs (some dict-subclass args)",
+                      [rand_cons_case(rng, dictsub_p=0.3) for _ in range(ctx.budget(400, 6000))],
+                      "consolidate_attrs")
     for badchild in (object(), b"x", {1, 2}):
         r = safe_call(lambda: consolidate_attrs({"a": 1}, badchild, b=2))
         d = safe_call(lambda: Tag("div", {"a": 1}, badchild, b=2))
@@ -623,11 +875,8 @@ def replay(ctx: Ctx, path: str) -> None:
     ctx.proof()
     if isinstance(c, dict) and "ops" in c:
         check_scenarios(ctx, "replayed scenario", [c])
-    elif isinstance(c, dict) and "ckinds" in c:
-        ctx.count(("consolidate", c), True, "consolidate_attrs")
-        _, msg, detail = impl_consolidate(c)
-        if msg is not None:
-            ctx.violation("consolidate_attrs: " + msg, c, detail)
+    elif isinstance(c, dict) and ("ckinds" in c or "children" in c):
+        check_consolidate(ctx, "replayed consolidate_attrs case", [c], "consolidate_attrs")
     elif isinstance(c, str):
         iv = TagAttrDict._normalize_attr_name(c)
         ctx.count(("name", c), True, "name")
